@@ -5,7 +5,7 @@
    decisive mismatch, penalties, quality_laws).  In `tcp_distance s o` / `http_distance s o` the first
    argument is the database signature, the second the observation.
    Known classes (genuine defects of the unchanged code, each with a witness):
-     K1 ttl_form_gap, K2 win_mod_raw, K5 win_mss_inexact (TCP),
+     K1 ttl_form_gap (TCP)   [K2 win_mod_raw and K5 win_mss_inexact were repaired in /repo: 91576de, a8d31d2],
      K3 expsw_strict / expsw_reversed, K4 optional_name_reused (HTTP). *)
 From Coq Require Import List NArith Bool.
 From HN Require Import Base.Bytes Model.SigAst Model.Match Spec.InstanceSpec Proofs.MatchProofs.
@@ -76,13 +76,13 @@ Print Assumptions C12_tcp_single_field.
    different => the distance is exactly f's fixed penalty (ittl 2, olen 2, mss 2, wsize 2, wscale 1) *)
 Theorem C12_tcp_single_field_off :
   forall (f : tcp_field) (s o : tcp_sig),
-    ttl_u8 (t_ittl s) -> known_tcp s o = false -> win_mss_inexact s o = false ->
+    ttl_u8 (t_ittl s) -> known_tcp s o = false ->
     single_field_off f s o = true -> field_differs_comparably f s o = true ->
     tcp_distance s o = Some (field_penalty f).
 Proof. exact tcp_single_field_off_exact. Qed.
 Check C12_tcp_single_field_off :
   forall (f : tcp_field) (s o : tcp_sig),
-    ttl_u8 (t_ittl s) -> known_tcp s o = false -> win_mss_inexact s o = false ->
+    ttl_u8 (t_ittl s) -> known_tcp s o = false ->
     single_field_off f s o = true -> field_differs_comparably f s o = true ->
     tcp_distance s o = Some (field_penalty f).
 Print Assumptions C12_tcp_single_field_off.
@@ -108,7 +108,9 @@ Theorem C12_ttl_window_components :
   /\ (forall sw ow m, win_same_form sw ow ->
                       distance_window_size ow sw m = Some (if window_size_eqb ow sw then 0 else pen_wsize))
   /\ (forall k w m, distance_window_size (WValue w) (WMss k) m =
-                    Some (match m with Some mv => if (0 <? mv) && (w / mv =? k) then 0 else pen_wsize | None => pen_wsize end)).
+                    Some (match m with Some mv => if (0 <? mv) && (w =? k * mv) then 0 else pen_wsize | None => pen_wsize end))
+  /\ (forall n w m, distance_window_size (WValue w) (WMod n) m =
+                    Some (if (0 <? n) && (w mod n =? 0) then 0 else pen_wsize)).
 Proof. exact ttl_window_components. Qed.
 Check C12_ttl_window_components :
   (forall ot st, distance_ttl ot st = None \/ distance_ttl ot st = Some 0 \/ distance_ttl ot st = Some pen_ttl)
@@ -119,7 +121,9 @@ Check C12_ttl_window_components :
   /\ (forall sw ow m, win_same_form sw ow ->
                       distance_window_size ow sw m = Some (if window_size_eqb ow sw then 0 else pen_wsize))
   /\ (forall k w m, distance_window_size (WValue w) (WMss k) m =
-                    Some (match m with Some mv => if (0 <? mv) && (w / mv =? k) then 0 else pen_wsize | None => pen_wsize end)).
+                    Some (match m with Some mv => if (0 <? mv) && (w =? k * mv) then 0 else pen_wsize | None => pen_wsize end))
+  /\ (forall n w m, distance_window_size (WValue w) (WMod n) m =
+                    Some (if (0 <? n) && (w mod n =? 0) then 0 else pen_wsize)).
 Print Assumptions C12_ttl_window_components.
 
 (* for ANY signature and observation: rejection exactly on a decisive mismatch or an incomparable TTL /
@@ -223,10 +227,6 @@ Theorem C12_known_ttl_form_gap_refuted :
   exists s o, ttl_u8 (t_ittl s) /\ tcp_instance s o /\ ttl_form_gap s o = true /\ tcp_distance s o <> Some 0.
 Proof. exact Known_ttl_form_gap_refuted. Qed.
 Print Assumptions C12_known_ttl_form_gap_refuted.
-Theorem C12_known_win_mod_raw_refuted :
-  exists s o, ttl_u8 (t_ittl s) /\ tcp_instance s o /\ win_mod_raw s o = true /\ tcp_distance s o <> Some 0.
-Proof. exact Known_win_mod_raw_refuted. Qed.
-Print Assumptions C12_known_win_mod_raw_refuted.
 Theorem C12_known_expsw_strict_refuted :
   exists s o, http_instance s o /\ expsw_strict s o = true /\ http_distance s o <> Some 0.
 Proof. exact Known_expsw_strict_refuted. Qed.
@@ -239,12 +239,6 @@ Theorem C12_known_optional_name_reused_refuted :
   exists s o, http_instance s o /\ optional_name_reused s = true /\ http_distance s o <> Some 0.
 Proof. exact Known_optional_name_reused_refuted. Qed.
 Print Assumptions C12_known_optional_name_reused_refuted.
-Theorem C12_known_win_mss_inexact_refuted :
-  exists s o, ttl_u8 (t_ittl s) /\ known_tcp s o = false /\ single_field_off FWsize s o = true
-              /\ field_differs_comparably FWsize s o = true /\ win_mss_inexact s o = true
-              /\ tcp_distance s o <> Some (field_penalty FWsize).
-Proof. exact Known_win_mss_inexact_refuted. Qed.
-Print Assumptions C12_known_win_mss_inexact_refuted.
 Theorem C12_known_expsw_reversed_refuted :
   exists s o, optional_name_reused s = false /\ expsw_off s o = true /\ expsw_reversed s o = true
               /\ http_distance s o <> Some pen_expsw.
